@@ -1,5 +1,7 @@
-import Pdq.Model.LinAlg
-import Pdq.Model.Gauss
+import Pdq.Bridge
 import Pdq.Drv.Core
 import Pdq.Drv.Gauss
-import Pdq.Bridge
+import Pdq.Generated.Consts
+import Pdq.Model.Gauss
+import Pdq.Model.LinAlg
+import Pdq.Props.C08
